@@ -264,39 +264,42 @@ class Discharger:
         """the scrutinee is the character produced by one_of(set) / an element of take_while(set) strings"""
         fn = f.key
         have = set(lits)
-        # (a) the match is the body of a map closure whose parser is seq[.., set] in this function's IR
+        # (a) the match is the body of a function value (closure or named fn) mapped over a parser: find that parser in any IR
         sets = []
-        try:
-            fb = self.b.fn_ir(fn)
-        except F.AnchorMissing:
-            fb = None
-        if fb is not None:
+        scr = rx.var_name(mt["scrut"])
+
+        def visit(fbx):
             def w(n):
                 if n["t"] == "map" and n["f"].get("k") == "closure" and find_all(n["f"], lambda x: x is mt):
                     inner = A.unwrap(n["p"])
-                    cands = [inner] if inner["t"] == "set" else [A.unwrap(i["p"]) for i in inner.get("items", [])] if inner["t"] == "seq" else []
-                    scr = rx.var_name(mt["scrut"])
-                    # which closure parameter is the scrutinee → which seq element
-                    prm = rx.closure_params(n["f"])[0]
-                    if prm["k"] == "tuple" and inner["t"] == "seq":
+                    cands = [inner] if inner["t"] == "set" else []
+                    prm = rx.closure_params(n["f"])[0] if n["f"]["params"] else None
+                    if prm is not None and prm["k"] == "tuple" and inner["t"] == "seq":
                         names = [rx.pat_bindings(e)[0] if rx.pat_bindings(e) else None for e in prm["elems"]]
                         kept = [A.unwrap(i["p"]) for i in inner["items"] if i["keep"]]
                         if scr in names and len(kept) == len(names):
                             cands = [kept[names.index(scr)]]
+                    elif inner["t"] == "seq":
+                        cands = [A.unwrap(i["p"]) for i in inner["items"]]
                     for x in cands:
                         if x["t"] == "set":
                             sets.append(x)
-            self.g.walk(fb, w, follow=False)
-            # steps with tuple patterns (PartialPermission::parse): `let (target, operator, level) = (..).parse_next(input)?; match operator {..}`
-            scr = rx.var_name(mt["scrut"])
-            for st in fb.get("steps", []):
-                if st["pat"]["k"] == "tuple":
-                    sq = A.unwrap(st["p"])
-                    names = [rx.pat_bindings(e)[0] if rx.pat_bindings(e) else None for e in st["pat"]["elems"]]
-                    if sq["t"] == "seq" and scr in names and len(sq["items"]) == len(names):
-                        x = A.unwrap(sq["items"][names.index(scr)]["p"])
-                        if x["t"] == "set":
-                            sets.append(x)
+            self.g.walk(fbx, w, follow=False)
+
+        for k2, f2 in self.f.fns.items():
+            if f2.test or f2.module[:1] != ("find_parser",):
+                continue
+            try:
+                visit(self.b.fn_ir(k2))
+            except F.AnchorMissing:
+                pass
+        # (a') the scrutinee is bound by a parser step of this function (tuple or sequential form)
+        try:
+            bnd = self.g.bindings(self.b.fn_ir(fn))
+        except F.AnchorMissing:
+            bnd = {}
+        if scr in bnd and bnd[scr]["t"] == "set":
+            sets.append(bnd[scr])
         if sets:
             bad = [peg.cs_show(x["cs"]) for x in sets if not (x["cs"][0] == "in" and set(x["cs"][1]) <= have)]
             return (not bad), "set-cover", "scrutinee comes from character set %s; the non-panicking arms cover %s" % ([peg.cs_show(x["cs"]) for x in sets], sorted(have)) + ("" if not bad else " — NOT covered")
@@ -306,7 +309,7 @@ class Discharger:
             for k2, f2 in self.f.fns.items():
                 if f2.test:
                     continue
-                if find_all(f2.body, lambda n: n.get("k") == "path" and "::".join(n["segs"][-2:]) == "%s::%s" % (fn.split("::")[-2] if "::" in fn else "", f.name), skip_pats=True) and f2 is not f:
+                if f2 is not f and self.refers_to(f2, f):
                     callers.append(f2)
             ok_all, dets = bool(callers), []
             for f2 in callers:
@@ -323,6 +326,17 @@ class Discharger:
             return ok_all, "set-cover", "arms cover %s; callers: %s" % (sorted(have), "; ".join(dets))
         return None, "set-cover", "origin of the matched character in %s not recognised" % fn
 
+    def refers_to(self, f2, target):
+        """Does the body of f2 mention function `target` (as a call or as a function value)?"""
+        env = {"__module": f2.module, "__tsubst": {}}
+        for n in find_all(f2.body, lambda n: n.get("k") == "path" and n["segs"][-1] == target.name, skip_pats=True):
+            if len(n["segs"]) >= 2 and "::".join(n["segs"][-2:]) == target.key:
+                return True
+            r = self.b._resolve_fn_path(n, env)
+            if r and r[0] == target.key:
+                return True
+        return False
+
     def char_sources(self, helper):
         """For `fn from_symbolic_str(input) { input.chars().map(value).. }`: the character sets of every string passed by callers."""
         if not helper.params:
@@ -336,20 +350,13 @@ class Discharger:
             if f2.test or f2 is helper:
                 continue
             calls = find_all(f2.body, lambda n: n.get("k") == "call" and n["f"]["k"] == "path" and n["f"]["segs"][-1] == short)
-            if not calls:
+            if not calls or not self.refers_to(f2, helper):
                 continue
             try:
                 fb = self.b.fn_ir(k2)
             except F.AnchorMissing:
                 return None
-            env = {}
-            for st in fb.get("steps", []):
-                if st["pat"]["k"] == "tuple":
-                    sq = A.unwrap(st["p"])
-                    names = [rx.pat_bindings(e)[0] if rx.pat_bindings(e) else None for e in st["pat"]["elems"]]
-                    if sq["t"] == "seq" and len(sq["items"]) == len(names):
-                        for nme, it in zip(names, sq["items"]):
-                            env[nme] = A.unwrap(it["p"])
+            env = self.g.bindings(fb)
             for cl in calls:
                 a = rx.var_name(cl["args"][0]) if cl["args"] else None
                 n = env.get(a)
@@ -360,7 +367,6 @@ class Discharger:
 
     def set_cover_tokens(self, f, mt, toks):
         have = {t.split("::")[1] for t in toks}
-        fb = self.b.fn_ir(f.key)
         found = []
 
         def w(n):
@@ -369,7 +375,13 @@ class Discharger:
                 if inner["t"] == "tokset" and not inner.get("neg"):
                     found.append(set(inner["toks"]))
 
-        self.g.walk(fb, w, follow=False)
+        for k2, f2 in self.f.fns.items():
+            if f2.test or f2.module[:1] != ("find_parser",):
+                continue
+            try:
+                self.g.walk(self.b.fn_ir(k2), w, follow=False)
+            except F.AnchorMissing:
+                pass
         if not found:
             return None, "set-cover", "token-class origin not recognised in %s" % f.key
         ok = all(x <= have for x in found)
@@ -451,8 +463,11 @@ class Discharger:
         # nonempty: reduce()/first() of a value produced by Set(min≥1)/RepTill(min≥1)
         if recv["k"] == "mcall" and recv["m"] == "first":
             return self.first_unwrap(f, node, recv)
-        if recv["k"] == "call" and recv["f"]["k"] == "path" and recv["f"]["segs"][-1] == "from_symbolic_str":
-            return self.nonempty_symbolic(f, recv)
+        if recv["k"] == "call" and recv["f"]["k"] == "path" and len(recv["args"]) == 1:
+            hname = recv["f"]["segs"][-1]
+            h = next((x for x in self.f.fns.values() if x.name == hname and not x.test), None)
+            if h is not None and find_all(h.body, lambda x: x.get("k") == "mcall" and x["m"] == "reduce"):
+                return self.nonempty_symbolic(f, recv)
         # ensure-get
         if recv["k"] == "mcall" and recv["m"] in ("get", "as_ref", "get_mut"):
             return self.ensure_get(f, node, recv)
@@ -514,29 +529,26 @@ class Discharger:
                         return ok, "len-arm", "first().unwrap() in the arm len() ∈ %s of `match %s.len()`" % (lits, name)
         # (b) result of repeat_till(min≥1..)
         fb = self.b.fn_ir(f.key)
-        for st in fb.get("steps", []):
-            if st["pat"]["k"] == "ident" and st["pat"]["name"] == name:
-                p = st["p"]
-                while p["t"] in ("map", "ctx", "cut"):
-                    p = p["p"]
-                if p["t"] in ("reptill", "rep", "sep"):
-                    return p["min"] >= 1, "nonempty", "`%s` is the result of %s with lower bound %d" % (name, p["t"], p["min"])
+        bnd = self.g.bindings(fb)
+        if name in bnd:
+            p = bnd[name]
+            while p["t"] in ("map", "ctx", "cut"):
+                p = p["p"]
+            if p["t"] in ("reptill", "rep", "sep"):
+                return p["min"] >= 1, "nonempty", "`%s` is the result of %s with lower bound %d" % (name, p["t"], p["min"])
         return None, "nonempty", "origin of `%s` not recognised" % name
 
     def nonempty_symbolic(self, f, recv):
         fb = self.b.fn_ir(f.key)
         arg = rx.var_name(recv["args"][0]) if recv["args"] else None
-        for st in fb.get("steps", []):
-            if st["pat"]["k"] == "tuple":
-                sq = A.unwrap(st["p"])
-                names = [rx.pat_bindings(e)[0] if rx.pat_bindings(e) else None for e in st["pat"]["elems"]]
-                if sq["t"] == "seq" and arg in names and len(sq["items"]) == len(names):
-                    n = A.unwrap(sq["items"][names.index(arg)]["p"])
-                    if n["t"] == "set":
-                        # helper must be reduce over the chars
-                        h = self.f.fns.get("Permission::from_symbolic_str")
-                        red = h is not None and bool(find_all(h.body, lambda x: x.get("k") == "mcall" and x["m"] == "reduce")) and bool(find_all(h.body, lambda x: x.get("k") == "mcall" and x["m"] == "chars"))
-                        return n["min"] >= 1 and red, "nonempty", "`%s` is parsed by %s{%d,}: reduce() over a non-empty string is Some" % (arg, peg.cs_show(n["cs"]), n["min"])
+        bnd = self.g.bindings(fb)
+        if arg in bnd and bnd[arg]["t"] == "set":
+            n = bnd[arg]
+            # the helper must be a reduce over the characters of its argument
+            hname = recv["f"]["segs"][-1]
+            h = next((x for x in self.f.fns.values() if x.name == hname and not x.test), None)
+            red = h is not None and bool(find_all(h.body, lambda x: x.get("k") == "mcall" and x["m"] == "reduce")) and bool(find_all(h.body, lambda x: x.get("k") == "mcall" and x["m"] == "chars"))
+            return n["min"] >= 1 and red, "nonempty", "`%s` is parsed by %s{%d,}: reduce() over a non-empty string is Some" % (arg, peg.cs_show(n["cs"]), n["min"])
         return None, "nonempty", "argument `%s` not bound from a parser tuple" % arg
 
     def ensure_get(self, f, node, recv):
